@@ -19,6 +19,24 @@ fn main() {
     if matches!(args[1].as_str(), "cache" | "acache" | "replay-cache") {
         watch::arm(arg(&args, "--out"), std::time::Duration::from_secs(arg_u64(&args, "--hang-secs", 45)));
     }
+    // implementation-vs-oracle runs: a scenario that never completes (a deadlock in the implementation) is
+    // itself the finding; the deadline scales with the number of rounds asked for
+    if matches!(args[1].as_str(), "live" | "flavour") {
+        let rounds = arg_u64(&args, "--rounds", 200);
+        let limit = arg_u64(&args, "--max-secs", 300 + rounds / 10);
+        let what = arg(&args, "--scenario").unwrap_or_else(|| args[1].clone());
+        let kind = args[1].clone();
+        std::thread::spawn(move || {
+            std::thread::sleep(std::time::Duration::from_secs(limit));
+            if kind == "live" {
+                println!("live scenario={} rounds=0 violations=1 detail=the_scenario_did_not_complete_within_{}_s:_some_call_or_worker_blocks_for_ever", what, limit);
+            } else {
+                println!("flavour-mismatch the_differential_run_did_not_complete_within_{}_s:_some_call_blocks_for_ever_on_one_of_the_executors", limit);
+                println!("flavour scripts=0 steps=0 mismatches=1 seed_mismatch=0 detail=did_not_complete_within_{}_s", limit);
+            }
+            std::process::exit(0);
+        });
+    }
     match args[1].as_str() {
         // C13: rows exhaustively, then TinyLFU lives over the num_counters sweep
         "sketch" => {
@@ -153,6 +171,9 @@ fn main() {
                     "sweep_refresh_race" => live2::sweep_refresh_race((rounds / 100).max(2), &arg(&args, "--prop").unwrap_or_else(|| "all".to_string())),
                     "async_sweep_refresh_race" => live2::async_sweep_refresh_race((rounds / 100).max(2), &arg(&args, "--prop").unwrap_or_else(|| "all".to_string())),
                     "double_clear" => live2::double_clear((rounds / 25).max(8)),
+                    "transparent_keys" => live2::transparent_keys(rounds),
+                    "iip_race" => live2::iip_race((rounds / 20).max(10), &arg(&args, "--prop").unwrap_or_else(|| "all".to_string())),
+                    "reentrant_callbacks" => live2::reentrant_callbacks((rounds / 8).max(30)),
                     "validator_race" => live2::validator_race((rounds / 15).max(12)),
                     "metrics_contention" => live2::metrics_contention((rounds / 100).max(3)),
                     "ring_contention" => live2::ring_contention((rounds / 75).max(4)),
